@@ -43,6 +43,8 @@ CHECKS = {
             # statements inside a function body (return available at no cost) with comments on any token: the restricted
             # production after `return` with trivia replayed around calls / member accesses / operators
             {"harnesses": [H + "ZZH1Behaviour"], "flags": VLQ_REDIRECT, "quick": {"budget": 2, "stmts": 1, "trivia": 1, "triviakinds": 2, "wrapfunc": 1, "nofunc": 1, "atoms": 1, "maxlist": 1, "stmtmask": 128, "exprmask": 896}, "thorough": {"budget": 2, "stmts": 1, "trivia": 1, "triviakinds": 5, "wrapfunc": 1, "nofunc": 1, "atoms": 1, "maxlist": 1, "stmtmask": 128, "exprmask": 1022}},
+            # literal objects: a decimal integer as the object of a member access / call / index (`1 .p`)
+            {"harnesses": [H + "ZZH1Behaviour"], "flags": VLQ_REDIRECT, "quick": {"budget": 2, "stmts": 1, "atoms": 2, "exprmask": 896, "litcallee": 1, "nofunc": 1, "maxlist": 1}, "thorough": {"budget": 2, "stmts": 2, "atoms": 2, "exprmask": 896, "litcallee": 1, "nofunc": 1, "maxlist": 1}},
         ],
     },
     "C14": {
